@@ -76,16 +76,20 @@ def _nodes(body):
 
 
 def run_static(art, timeout=3600):
-    d = tempfile.mkdtemp(prefix="verif_static_")
-    try:
-        f = os.path.join(d, "tv.json")
-        tv.dump_tv(f, art.cases, art.il_subs, art.c_subs, [])
-        s = tlc.run("Static.tla", "Static.cfg", env={"TV_FILE": f}, timeout=timeout, tags=("STREPORT",))
-        if s.states == 0 or (s.error_text and "nvariant" not in s.error_text):
-            raise tlc.TLCError("Static.tla did not run to completion:\n" + s.out[-4000:])
-        return s, tvcheck.uniq_reports(s.reports["STREPORT"])
-    finally:
-        shutil.rmtree(d, ignore_errors=True)
+    ss = []
+    for b in range(0, max(1, len(art.cases)), tv.BATCH):
+        d = tempfile.mkdtemp(prefix="verif_static_")
+        try:
+            f = os.path.join(d, "tv.json")
+            tv.dump_tv(f, art.cases[b:b + tv.BATCH], art.il_subs, art.c_subs, [])
+            s = tlc.run("Static.tla", "Static.cfg", env={"TV_FILE": f}, timeout=timeout, tags=("STREPORT",))
+            if s.states == 0 or (s.error_text and "nvariant" not in s.error_text):
+                raise tlc.TLCError("Static.tla did not run to completion:\n" + s.out[-4000:])
+            ss.append(s)
+        finally:
+            shutil.rmtree(d, ignore_errors=True)
+    s = tlc.merge(ss)
+    return s, tvcheck.uniq_reports(s.reports["STREPORT"])
 
 
 def n_artefacts(art):
